@@ -42,6 +42,11 @@ OPS = [
     ("find_best_fit", dict(include_zero=False, n=2, m=1)),
     ("find_best_fit", dict(include_zero=True, n=2, m=0)),
     ("fit", dict(n=3, m=0, include_zero=False)),
+    # near-collision siblings: differ from an operation above in exactly one argument, so that hidden state keyed too
+    # coarsely (a memo that forgets component_index / include_zero / an order) changes a result somewhere in a pair
+    ("fit", dict(n=1, m=0, include_zero=True, other_component=True)),
+    ("fit", dict(n=1, m=0, include_zero=False)),
+    ("find_best_fit", dict(include_zero=True, n=1, m=1, other_component=True)),
 ]
 
 
@@ -53,8 +58,12 @@ def build_world(name):
 
 def apply_op(world, op):
     kind, kw = op
+    kw = dict(kw)
+    ci = world["component_index"]
+    if kw.pop("other_component", False):
+        ci = 1 - ci
     f = U.pyvaporation.fit if kind == "fit" else U.pyvaporation.find_best_fit
-    return f(world["data"], component_index=world["component_index"], **kw)
+    return f(world["data"], component_index=ci, **kw)
 
 
 def loss(f, world):
@@ -78,6 +87,8 @@ def judge_history(case):
     world = build_world(name)
     pristine = canon.ser(world)
     c0 = canon.canon(world)
+    h0 = canon.hidden_state()
+    hidden = 0
     v = []
     states = {c0}
     digests = []
@@ -85,9 +96,11 @@ def judge_history(case):
         st, res = core.call(apply_op, world, OPS[opi])
         c = canon.canon(world)
         states.add(c)
+        if canon.hidden_state() != h0:
+            hidden = 1  # recorded, not a verdict: whether it matters is decided by the result comparisons below
         if c != c0:
-            v.append(core.viol("C16/measurements_mutated", "after operation %d (%s %r) of history %r the caller's data / library state changed: %s" % (
-                step, OPS[opi][0], OPS[opi][1], hist, canon.diff(pristine, canon.ser(world)) or "library-global state changed"), history=hist))
+            v.append(core.viol("C16/measurements_mutated", "after operation %d (%s %r) of history %r the caller's data (or a built-in component/mixture) changed: %s" % (
+                step, OPS[opi][0], OPS[opi][1], hist, canon.diff(pristine, canon.ser(world)) or "a Mixtures/Components singleton changed"), history=hist))
             break
         if st != "ok":
             d = "raise:" + type(res).__name__
@@ -100,7 +113,7 @@ def judge_history(case):
                 OPS[opi][0], OPS[opi][1], step, hist), history=hist, got=d, fresh=ref))
             break
         # best-of: the search must not lose against any single fit within the requested orders
-        if st == "ok" and OPS[opi][0] == "find_best_fit" and "n" in OPS[opi][1] and step == len(hist) - 1 and len(hist) == 1:
+        if st == "ok" and OPS[opi][0] == "find_best_fit" and "n" in OPS[opi][1] and "other_component" not in OPS[opi][1] and step == len(hist) - 1 and len(hist) == 1:
             kw = OPS[opi][1]
             lbest = loss(res, world)
             for n in range(kw["n"] + 1):
@@ -114,7 +127,7 @@ def judge_history(case):
                 if v:
                     break
     return core.result("history", digest=core.digest_of([name, hist, digests]), viol=v, states=len(states), transitions=len(digests) + (1 if v else 0),
-                       traces=1, sample={"dataset": name, "history": [OPS[i][0] for i in hist], "result_digests": digests})
+                       traces=1, histories_creating_hidden_library_state=hidden, sample={"dataset": name, "history": [OPS[i][0] for i in hist], "result_digests": digests})
 
 
 # ---------------------------------------------------------------------------------------------
@@ -251,7 +264,7 @@ def main(tier, seed):
     rep.note("fresh_interpreter_spawns", len(jobs))
     hist = []
     for nm in names:
-        menu = list(range(len(OPS))) if (q or nm in ("D3", "D7", "D12")) else list(range(0, len(OPS), 2))
+        menu = list(range(len(OPS))) if nm in ("D7", "D12") else ([1, 3, 5, 6, 10, 11, 12] if nm == "D3" else list(range(0, len(OPS), 2)) + [10, 11, 12])
         for dpt in range(1, depth + 1):
             if dpt == 3 and nm not in ("D3", "D7"):
                 continue
@@ -260,6 +273,7 @@ def main(tier, seed):
     m = core.run_space(rep, core.ListSpace("fit_histories", hist, note="all operation sequences up to depth %d" % depth), judge_history, chunk=4, determinism_probe=0)
     rep.note("max_history_depth", depth)
     rep.note("operations_in_menu", len(OPS))
+    rep.note("histories_creating_hidden_library_state", m["extra"].get("histories_creating_hidden_library_state", 0))
     bo = []
     T4 = (313.15, 323.15, 333.15, 343.15)
     T5 = (303.15, 318.15, 333.15, 348.15, 363.15)
